@@ -30,6 +30,24 @@ SEL = P + "utils/_selection.py"
 
 # (id, properties, expected rule prefix(es), file, old, new[, count])
 MUST_FIRE = [
+    # ---- round 6
+    ("voi-current-error-zero-guard-dropped", ["C01"], ["R1.13"], P + "pool/_expected_error_reduction.py",
+     "            if self.normalize:\n                if norm == 0:\n                    return 0.0\n                else:\n"
+     "                    return err / norm\n            else:\n                return err\n        else:\n",
+     "            if self.normalize:\n                return err / norm\n            else:\n                return err\n        else:\n"),
+    ("contrastive-labeled-blanked", ["C01"], ["R1.12"], P + "pool/_contrastive_al.py",
+     "            utilities[mapping] = utilities_cand\n",
+     "            utilities[mapping] = utilities_cand\n            utilities[is_labeled(y, self.missing_label_)] = np.nan\n"),
+    ("sklreg-raise-on-empty-weights", ["C15"], ["R15.13"], P + "regressor/_wrapper.py",
+     "            estimator_params[\"sample_weight\"] = sample_weight[is_lbld]\n",
+     "            estimator_params[\"sample_weight\"] = sample_weight[is_lbld]\n"
+     "            if np.sum(sample_weight[is_lbld]) == 0:\n                raise ValueError(\"all zero\")\n"),
+    ("encoder-transform-stores-dtype", ["C16"], ["R16.10"], P + "utils/_label_encoder.py",
+     "        y_enc = np.empty_like(y, dtype=int)\n",
+     "        self._dtype = np.append(y, self.missing_label).dtype\n        y_enc = np.empty_like(y, dtype=int)\n"),
+    ("icw-elementwise-relabel", ["C19"], ["R19.15"], P + "pool/utils.py",
+     "            self.idx_ = np.concatenate([self.idx_[cur_idx], add_idx], axis=0)\n",
+     "            self.y_[cur_idx] = self.y_[cur_idx]\n            self.idx_ = np.concatenate([self.idx_[cur_idx], add_idx], axis=0)\n"),
     # ---- C01 / C02 / C18 selection
     ("sb-mask-deleted", ["C01", "C18"], ["R1.4", "R18.2"], SEL,
      "            utilities[tuple(best_indices[i])] = np.nan\n", ""),
